@@ -679,6 +679,18 @@ func checkC02(e *Env, r *Report) {
 			return
 		}
 		fullH := treeEntries(filepath.Join(fullB.Out, "apparmor.d"))
+		// twins: the same body under two names, processed before and after the profile it stacks: the same text
+		{
+			rd := func(n string) string {
+				t, _ := os.ReadFile(filepath.Join(fullB.Out, "apparmor.d", n))
+				return strings.ReplaceAll(string(t), n, "TWIN")
+			}
+			a, z := rd("aa-vgen-hist-twin"), rd("zz-vgen-hist-twin")
+			if a != "" || z != "" {
+				recs = append(recs, map[string]any{"ev": "same", "id": fmt.Sprintf("twins|aa-vgen-hist-twin~zz-vgen-hist-twin|%s", c.Key()),
+					"what": "two profiles with the same body, one processed before the profile they stack and one after it, are written differently", "a": shaS(a), "b": shaS(z)})
+			}
+		}
 		type one struct {
 			name string
 			h    string
